@@ -62,8 +62,11 @@ def run_job(j):
     H, W = j["H"], j["W"]
     vals = np.array([[np.nan if v == "nan" else (np.inf if v == "inf" else float(v)) for v in row]
                      for row in j["vals"]], dtype=np.float64)
-    xs = np.array(j["xs"], dtype=np.float64)
-    ys = np.array(j["ys"], dtype=np.float64)
+    # "scale": the integer lattice coordinates are multiplied by a (possibly non-binary) cell size;
+    # observed distances are mapped back to lattice units before encoding
+    sc = float(j.get("scale", 1.0))
+    xs = np.array(j["xs"], dtype=np.float64) * sc
+    ys = np.array(j["ys"], dtype=np.float64) * sc
     metric = j["metric"]
     mx = j.get("max")
     targets = j.get("targets") or []
@@ -99,10 +102,12 @@ def run_job(j):
         tab = []
         if metric == "E":
             def enc(p):
+                p = p / sc
                 n = int(round(p * p))
                 return n if abs(p * p - n) <= 1e-4 * max(1.0, n) else -2
         else:
             def enc(p):
+                p = p / sc
                 m = int(round(p))
                 return m * m if abs(p - m) <= 1e-4 * max(1.0, m) else -2
         if mx is None:
